@@ -1,6 +1,7 @@
 CONSTANTS
   MaxJunk = 4
   Fixed = TRUE
+  PrefixJSONAccepted = FALSE
 SPECIFICATION Spec
 INVARIANT Correct
 PROPERTY Terminates
